@@ -140,6 +140,54 @@ def run(ctx):
                                 break
                 if rep == 0 and (placement, producer, order, reuse, nloads) == ("kept", "datafn", "before", "none", 1):
                     res.sample({"case": meta, "source": case["source"], "first_value": r["value"]})
+    # values that are easily mistaken for "nothing there" (None, 0, '', [], {}, False, 0.0, b''): kept, then loaded - in the same
+    # evaluation, by a kept reader and at top level - after another value was committed at the same path (two-way: real dds
+    # against the dds-free run of the same files)
+    import os
+    import shutil
+    import sys
+    import tempfile
+    real = pipeline.real_runner()
+    ref = pipeline.ref_worker()
+    FALSY = ["None", "0", "''", "[]", "{}", "False", "0.0", "b''", "()"]
+    for fi, falsy in enumerate(FALSY if thorough else rng.sample(FALSY, 5) + ["None"]):
+        base = tempfile.mkdtemp(prefix="ddsverif_c09v_")
+        pkg = "c9v_%d_%d" % (os.getpid(), fi)
+        try:
+            store_kind = ["memory", "local", "local_lru"][fi % 3]
+            real.reset_process_state()
+            real.set_store(store_kind, os.path.join(base, "si"), os.path.join(base, "sd"))
+            ref.call(cmd="refpaths", paths={})
+            for step, expr in enumerate(["'x1'", falsy, "'x2'", falsy]):
+                src = ("import dds\nfrom ddsverif_rt import log, term\n\n"
+                       "def prod():\n    log('prod')\n    return %s\n\n"
+                       "def reader():\n    log('reader')\n    v = dds.load('/v/p')\n    return term('reader', repr(v))\n\n"
+                       "def f0():\n    a = dds.keep('/v/p', prod)\n    b = dds.keep('/v/r', reader)\n    c = dds.load('/v/p')\n"
+                       "    return term('f0', repr(a), b, repr(c))\n" % expr)
+                os.makedirs(os.path.join(base, pkg), exist_ok=True)
+                open(os.path.join(base, pkg, "__init__.py"), "w").close()
+                with open(os.path.join(base, pkg, "main.py"), "w") as fh:
+                    fh.write(src)
+                real.load_world(base, pkg + ".main", None, accept=pkg)
+                ref.call(cmd="world", dir=base, module=pkg + ".main", extmod=None)
+                entry = {"kind": "eval", "fun": "f0"}
+                rr = ref.call(cmd="run", entry=entry)
+                r = real.run(entry)
+                res.evaluations += 1
+                res.count("falsy_value_steps")
+                res.nontrivial("falsy %s step %d" % (falsy, step))
+                if rr.get("error") is not None:
+                    continue
+                if r["error"] is not None or r["value"] != rr["value"]:
+                    res.violations.append({"what": "a kept value %s is not what dds.load returns afterwards: dds gives %r (error %s), plain execution %r" % (
+                        expr, r["value"], r["error"], rr["value"]), "input": {"source": src, "step": step, "store": store_kind,
+                        "history": "the path held 'x1' / 'x2' before"}, "kf": None})
+                    break
+        finally:
+            shutil.rmtree(base, ignore_errors=True)
+            for k in list(sys.modules):
+                if k.split(".")[0] == pkg:
+                    del sys.modules[k]
     pipeline.close_ref()
     res.rule = ("all 40 combinations placement {root, helper, kept, datafn, loaded value fed to a keep} x producer {datafn, keep} x order {before, after, earlier, never}, plus 16 where the producing function already appeared in the evaluation (called / kept at another path) "
                 "(x%d with fresh random variables / stores / entry kinds), each followed by re-evaluation, producer edit, unrelated edit; one "
